@@ -22,13 +22,13 @@ static inline void vstream__write(struct vstream *s, const char *p, size_t n)
 {
   __CPROVER_assert(s->pos + n <= s->cap, "stream shim: write fits the buffer provided by the harness");
   __CPROVER_assume(s->pos + n <= s->cap);
-  for (size_t i = 0; i < n; i++) s->buf[s->pos + i] = (uchar)p[i];
+  memcpy(s->buf + s->pos, p, n);
   s->pos += n;
 }
 static inline void vstream__read(struct vstream *s, char *p, size_t n) {
   __CPROVER_assert(s->pos + n <= s->cap, "stream shim: read stays inside the image");
   __CPROVER_assume(s->pos + n <= s->cap);
-  for (size_t i = 0; i < n; i++) p[i] = (char)s->buf[s->pos + i];
+  memcpy(p, s->buf + s->pos, n);
   s->pos += n;
 }
 static inline void vstream__seekg(struct vstream *s, size_t off, int whence) { (void)whence; s->pos = off; }
